@@ -34,7 +34,7 @@ m = {
         {'name': 'ir2c+cbmc', 'path': 'ir2c/', 'serves_properties': sorted(p for p in props.PROPS if props.PROPS[p].get('e2')),
          'kind_free_text': 'clang-14 LLVM IR of extern "C" wrappers around the real headers -> own IR-to-C translator -> CBMC 6.11 bounded model checking with unwinding assertions and witness twins'}],
     'checks': checks,
-    'notes': 'Solver-based checking only. Fix commits in /repo and known findings: known_findings.txt, DESIGN.md section 10.',
+    'notes': 'Solver-based checking of the real code (engines E1 symx and E2 ir2c+CBMC). Fix commits in /repo and known findings: known_findings.txt, DESIGN.md section 7; seeded changes and which check catches which: seeded/, DESIGN.md section 8. C01/C02 additionally validate the svd contract natively (DESIGN.md section 3, L2).',
     'not_applicable': [{'property_id': k, 'reason': v} for k, v in sorted(na.NA.items()) if k not in props.PROPS],
 }
 json.dump(m, open(os.path.join(V, 'MANIFEST.json'), 'w'), indent=1)
